@@ -204,6 +204,73 @@ fn end_class(end: u64, unit: u64, virt: bool) -> &'static str {
     }
 }
 
+/// The other ways of consuming a range iterator (nth, skip, step_by, count, last - an implementation may override any of
+/// them) yield the same items as repeated next(): item i is `first + i*unit` for i < len, nothing after, and no panic.
+fn iterator_laws<I: Iterator + Clone>(rep: &mut Report, r: &mut Rng, sig: &str, it: &I, first: u64, unit: u64, len: u64, val: &dyn Fn(I::Item) -> u64, ctx: &dyn Fn() -> J) {
+    rep.eval();
+    // (a) a walk of nth(k) with k drawn around the interesting points; stops at the first expected None
+    let mut ks: Vec<u64> = Vec::new();
+    let res = catch(|| {
+        let mut it = it.clone();
+        let mut pos = 0u64;
+        let mut ks_l: Vec<u64> = Vec::new();
+        for _ in 0..12 {
+            let left = len - pos.min(len);
+            let k = match r.below(7) {
+                0 => 0,
+                1 => r.below(4),
+                2 => left.saturating_sub(1),
+                3 => left,
+                4 => left + 1 + r.below(3),
+                5 => usize::MAX as u64,
+                _ => r.below(left + 2),
+            };
+            ks_l.push(k);
+            let got = it.nth(k as usize).map(|x| val(x));
+            let idx = pos as u128 + k as u128;
+            let exp = if idx < len as u128 { Some(first + (idx as u64) * unit) } else { None };
+            if got != exp {
+                return (ks_l, Some((exp, got)));
+            }
+            if exp.is_none() {
+                break;
+            }
+            pos = idx as u64 + 1;
+        }
+        (ks_l, None)
+    });
+    match res {
+        Err(()) => rep.violation(&format!("{}::nth|panic", sig), ctx()),
+        Ok((k, Some((exp, got)))) => {
+            ks = k;
+            rep.violation(&format!("{}::nth|wrong-item", sig), J::obj(vec![("ctx", ctx()), ("nth_arguments", J::A(ks.iter().map(|&x| J::hex(x)).collect())), ("expected", exp.map(J::hex).unwrap_or(J::Null)), ("got", got.map(J::hex).unwrap_or(J::Null))]));
+        }
+        Ok(_) => {}
+    }
+    let _ = ks;
+    // (b) step_by / skip / count / last (bounded: len is at most a few thousand here)
+    let step = 1 + r.below(9);
+    let sk = r.below(len + 3);
+    let res = catch(|| {
+        let stepped: Vec<u64> = it.clone().step_by(step as usize).take(len as usize + 8).map(|x| val(x)).collect();
+        let ok_step = stepped.len() as u64 == (len + step - 1) / step && stepped.iter().enumerate().all(|(i, &v)| v == first + i as u64 * step * unit);
+        let skipped = it.clone().skip(sk as usize).next().map(|x| val(x));
+        let ok_skip = skipped == if sk < len { Some(first + sk * unit) } else { None };
+        let ok_count = it.clone().take(1 << 20).count() as u64 == len;
+        let ok_last = it.clone().take(1 << 20).last().map(|x| val(x)) == if len > 0 { Some(first + (len - 1) * unit) } else { None };
+        (ok_step, ok_skip, ok_count, ok_last)
+    });
+    match res {
+        Err(()) => rep.violation(&format!("{}::step_by/skip/count/last|panic", sig), J::obj(vec![("ctx", ctx()), ("step", J::U(step)), ("skip", J::U(sk))])),
+        Ok((a, b, c, d)) => {
+            if !(a && b && c && d) {
+                let which = if !a { "step_by" } else if !b { "skip" } else if !c { "count" } else { "last" };
+                rep.violation(&format!("{}::{}|differs-from-next", sig, which), J::obj(vec![("ctx", ctx()), ("step", J::U(step)), ("skip", J::U(sk))]));
+            }
+        }
+    }
+}
+
 fn page_ranges<S: PageSize>(rep: &mut Report, r: &mut Rng, tag: &str, maxlen: u64) {
     let unit = S::SIZE;
     // choose end anchor, both bounds in one half
@@ -255,6 +322,7 @@ fn page_ranges<S: PageSize>(rep: &mut Report, r: &mut Rng, tag: &str, maxlen: u6
             }
             Err(()) => rep.violation(&format!("{}::len|{}|panic", sigbase, ec), ctx()),
         }
+        iterator_laws(rep, r, &sigbase, &rg, s, unit, explen, &|p: Page<S>| p.start_address().as_u64(), &ctx);
         let res = catch(|| {
             let mut it = rg;
             let mut i = 0u64;
@@ -307,6 +375,7 @@ fn page_ranges<S: PageSize>(rep: &mut Report, r: &mut Rng, tag: &str, maxlen: u6
             }
             Err(()) => rep.violation(&format!("{}::len|{}|panic", sigbase, ec), ctx()),
         }
+        iterator_laws(rep, r, &sigbase, &rg, s, unit, l, &|p: Page<S>| p.start_address().as_u64(), &ctx);
         let res = catch(|| {
             let mut it = rg;
             let mut i = 0u64;
@@ -396,6 +465,7 @@ fn frame_ranges<S: PageSize>(rep: &mut Report, r: &mut Rng, tag: &str, maxlen: u
             }
             Err(()) => rep.violation(&format!("{}::len|{}|panic", sigbase, ec), ctx()),
         }
+        iterator_laws(rep, r, &sigbase, &rg, s, unit, explen, &|p: PhysFrame<S>| p.start_address().as_u64(), &ctx);
         let res = catch(|| {
             let mut it = rg;
             let mut i = 0u64;
@@ -441,6 +511,7 @@ fn frame_ranges<S: PageSize>(rep: &mut Report, r: &mut Rng, tag: &str, maxlen: u
             }
             Err(()) => rep.violation(&format!("{}::len|{}|panic", sigbase, ec), ctx()),
         }
+        iterator_laws(rep, r, &sigbase, &rg, s, unit, l, &|p: PhysFrame<S>| p.start_address().as_u64(), &ctx);
         let res = catch(|| {
             let mut it = rg;
             let mut i = 0u64;
